@@ -9,6 +9,7 @@ _W = None; _H = None
 
 def run_path(world, harness, prefix, seed=0):
     ex = Exec(world, prefix, seed)
+    if getattr(harness, 'hash_orders', True) and os.environ.get('VERIF_HASH_ORDERS') != '0': ex.env['hash_orders'] = True
     res = {'st': 'ok', 'cls': None}
     try:
         out = harness.run(ex) or {}
